@@ -2,6 +2,7 @@ mod c04;
 mod c24;
 mod c25;
 mod c27;
+mod p2_gen;
 
 fn main() {
     let args: Vec<String> = std::env::args().skip(1).collect();
